@@ -50,7 +50,9 @@ def run(R):
             R.check(b == a and b.wc == wc and b.hash_part == hp, 'raw-roundtrip', 'raw form parses to another address', W)
             R.check(hash(b) == hash(a), 'hash-equal-addresses', 'equal addresses hash differently', W)
             for (b2, t2, u2) in variants[:: 3]:
-                R.check(b.to_str(True, u2, b2, t2) == friendly_ref(wc, hp, b2, t2, u2), 'rerender-of-parsed-address', 'friendly rendering of a parsed raw address differs', W)
+                st2, s2 = mon.call(b.to_str, True, u2, b2, t2)
+                R.check(st2 == 'ok' and s2 == friendly_ref(wc, hp, b2, t2, u2), 'rerender-of-parsed-address',
+                        f'friendly rendering of a parsed raw address differs ({s2!r})', W)
         R.case(mon.fp('raw', wc, hp))
         for (bounce, test, url) in variants:
             s = a.to_str(True, url, bounce, test)
